@@ -1,3 +1,4 @@
 SPECIFICATION Spec
 INVARIANT Laws
+INVARIANT SessionLaws
 CHECK_DEADLOCK FALSE
